@@ -121,11 +121,19 @@ def _instance_assigned(prog, cq: str, attr: str) -> bool:
     return False
 
 
-def _refers_to_binding(prog, fi: FuncInfo, e: ast.AST, bindings) -> Optional[str]:
+def _refers_to_binding(prog, fi: FuncInfo, e: ast.AST, bindings, _depth: int = 0) -> Optional[str]:
     """If expression e denotes a shared binding, return its qualified name."""
     if isinstance(e, ast.Name):
         # local shadowing?
-        if e.id in fi.params() or assignments_to(fi.node, e.id):
+        if e.id in fi.params():
+            return None
+        vals = assignments_to(fi.node, e.id)
+        if vals:
+            # local alias of a shared binding (ranks = self._ranks; ranks.update(...))
+            if _depth < 3 and all(isinstance(v, (ast.Name, ast.Attribute)) for v in vals):
+                hits = {_refers_to_binding(prog, fi, v, bindings, _depth + 1) for v in vals}
+                if len(hits) == 1 and None not in hits:
+                    return hits.pop()
             return None
         q = prog.resolve_name(fi.module, e.id)
         if q in bindings:
